@@ -235,7 +235,12 @@ impl Check for Refactor {
                             continue;
                         }
                     };
-                    let v = if self.prop == "C09" {
+                    // a refactoring that needs heading level 7+ writes "#######", which is a paragraph: one known
+                    // finding with its own signature, not to be confused with other conservation failures
+                    let too_deep = after.values().any(|t| t.lines().any(|l| l.trim_start_matches(|c| c == '>' || c == ' ').starts_with("#######")));
+                    let v = if too_deep {
+                        vec![("heading-deeper-than-6".to_string(), "the result needs a heading of level 7 or more, written as a paragraph of '#'".to_string())]
+                    } else if self.prop == "C09" {
                         judge_c09(&kind, &lib, &after, key, line, text, &scan, tier)
                     } else {
                         judge_c10(&kind, &lib, &after, key, line, text, &scan)
